@@ -9,6 +9,7 @@ import ExponaxModel.Proofs.AliasND2Vort
 import ExponaxModel.Proofs.AliasND2React
 import ExponaxModel.Proofs.AliasND3Basic
 import ExponaxModel.Proofs.AliasND3Rot
+import ExponaxModel.Proofs.NonlinFunsEq
 /-
 C03 — nonlinear terms equal the alias-free projection of the documented operator.
 
@@ -396,5 +397,47 @@ theorem C03_belousov_zhabotinsky_nd (c : Cfg ℂ) (hD : 0 < c.D) (hq : c.fq ≠ 
         - AliasND.linConv c.D c.N (Kc c) (AliasND.dftV c.D c.N xa) (AliasND.dftV c.D c.N xb) (AliasND.kvec c.D c.N h) := by
   have := (AliasND.bz_alias_free_nd c hD hq hK hN xa xb xd ha hb hd h hh).1 hm
   exact ⟨this.2.2, this.2.1⟩
+
+/-! ### the `__call__` of EVERY nonlinear-function class, REGENERATED from its source on every run
+(`Gen.NonlinFuns.*`, found by walking `exponax/**` for subclasses of `BaseNonlinearFun`), equals the model function all
+the theorems above speak about — as whole multi-channel arrays.  The hypotheses are the source's own shape guards. -/
+open Exponax.Gen.NonlinFuns in
+theorem C03_generated_nonlinear_functions (c : Cfg ℂ) (C : ℕ) (scale s0 s1 s2 feed kill : ℂ) (coeffs : List ℂ)
+    (single conservative zeroFix : Bool) (uh : MC ℂ) :
+    PolynomialNonlinearFun_call c C coeffs uh = polynomial c C coeffs uh ∧
+    ((if single = true then conservative = false → C = 1 else C = c.D) →
+      ConvectionNonlinearFun_call c C scale single conservative uh = convection c C scale single conservative uh) ∧
+    GradientNormNonlinearFun_call c C zeroFix scale uh = gradientNorm c C scale zeroFix uh ∧
+    GeneralNonlinearFun_call c C (s0, s1, s2) zeroFix uh = general c C s0 s1 s2 zeroFix uh ∧
+    (C = 2 → GrayScottNonlinearFun_call c C feed kill uh = reaction c C (grayScottReact feed kill) uh) ∧
+    (C = 3 → BelousovZhabotinskyNonlinearFun_call c C uh = reaction c C bzReact uh) ∧
+    (0 < C → CahnHilliardNonlinearFun_call c C scale uh = cahnHilliard c scale uh) ∧
+    Leray_call c 2 uh = leray c uh ∧
+    VorticityConvection2d_call c scale uh = vorticity2d c scale none uh ∧
+    (c.D = 3 → ProjectedConvection3d_call c uh = projected3d c none uh) :=
+  ⟨NonlinFunsEq.PolynomialNonlinearFun_call_eq c C coeffs uh,
+   fun h => NonlinFunsEq.ConvectionNonlinearFun_call_eq c C scale single conservative uh h,
+   NonlinFunsEq.GradientNormNonlinearFun_call_eq c C scale zeroFix uh,
+   NonlinFunsEq.GeneralNonlinearFun_call_eq c C s0 s1 s2 zeroFix uh,
+   fun h => NonlinFunsEq.GrayScottNonlinearFun_call_eq c C h feed kill uh,
+   fun h => NonlinFunsEq.BelousovZhabotinskyNonlinearFun_call_eq c C h uh,
+   fun h => NonlinFunsEq.CahnHilliardNonlinearFun_call_eq c C h scale uh,
+   NonlinFunsEq.Leray_call_eq c uh, NonlinFunsEq.VorticityConvection2d_call_eq c scale uh,
+   fun h => NonlinFunsEq.ProjectedConvection3d_call_eq c h uh⟩
+
+/-- the Kolmogorov-forced variants (real scale `2π/L`; forcing mode `m ≥ 1` in 3-D) -/
+theorem C03_generated_forced_functions (c : Cfg ℂ) (s : ℝ) (hs : c.s = (s : ℂ)) (scale gam : ℂ) (m : ℕ) (uh : MC ℂ) :
+    Gen.NonlinFuns.VorticityConvection2dKolmogorov_call c scale m gam uh = vorticity2d c scale (some (m, gam)) uh ∧
+    (c.D = 3 → 0 < m → Gen.NonlinFuns.ProjectedConvection3dKolmogorov_call c m gam uh = projected3d c (some (m, gam)) uh) :=
+  ⟨NonlinFunsEq.VorticityConvection2dKolmogorov_call_eq c s hs scale m gam uh,
+   fun hD hm => NonlinFunsEq.ProjectedConvection3dKolmogorov_call_eq c hD m hm gam uh⟩
+
+/-- the class's own `fft` / `ifft` (mask included) are the model's `nfft` / `nifft` per channel; the class list is pinned -/
+theorem C03_generated_transforms (c : Cfg ℂ) (C : ℕ) (u uh : MC ℂ) :
+    Gen.NonlinFuns.BaseNonlinearFun_fft c C u = tabC C (fun i => nfft c (u.getD i #[])) ∧
+    Gen.NonlinFuns.BaseNonlinearFun_ifft c C uh = tabC C (fun i => nifft c (uh.getD i #[])) ∧
+    Gen.NonlinFuns.generated_classes.length = 13 := by
+  refine ⟨NonlinFunsEq.BaseNonlinearFun_fft_eq c C u, NonlinFunsEq.BaseNonlinearFun_ifft_eq c C uh, ?_⟩
+  rw [NonlinFunsEq.generated_classes_pinned]; rfl
 
 end Exponax
